@@ -246,8 +246,19 @@ var pagers = []pager{
 	{name: "ListWasteRecords", indexToken: true, minItems: 100, setup: func(ids []string) ([]string, listFn) {
 		m := wastepb.NewModel() // starts with 100 generated records
 		for i := m.GetWasteRecordCount(); i < len(ids); i++ {
+			if i%7 == 3 {
+				// a conditional add that is turned down: no record, and nothing else, comes of it
+				if _, err := m.AddWasteRecord(&traits.WasteRecord{Id: "rejected"}, resource.WithExpectedValue(&traits.WasteRecord{Id: "no such record"})); err == nil {
+					panic("an add with an expected value that does not match was accepted")
+				}
+			}
 			if _, err := m.GenerateWasteRecord(timestamppb.Now()); err != nil {
 				panic(err)
+			}
+		}
+		if len(ids)%2 == 1 {
+			if _, err := m.AddWasteRecord(&traits.WasteRecord{Id: "rejected"}, resource.WithExpectedValue(&traits.WasteRecord{Id: "no such record"})); err == nil {
+				panic("an add with an expected value that does not match was accepted")
 			}
 		}
 		n := m.GetWasteRecordCount()
